@@ -12,15 +12,12 @@ Decided (structural, necessary) clauses:
 from common import Rule, V, finish
 from mirlib import ENTRY_POINTS, short_path, op_const
 from rulelib import (is_fs_mut, calls_named, try_propagated, continue_edge_of_try,
-                     blocks_reachable_from, strip_generics)
+                     blocks_reachable_from, strip_generics, is_cache_new, arg_by_type, ARG_TYPES)
 
 PROP = "C17"
 SAVE = "tauri_typegen::build::generation_cache::GenerationCache::save"
 CACHE_NEW = "tauri_typegen::build::generation_cache::GenerationCache::new"
-READONLY = ["tauri_typegen::build::generation_cache::GenerationCache::load",
-            "tauri_typegen::build::generation_cache::GenerationCache::needs_regeneration",
-            "tauri_typegen::build::generation_cache::GenerationCache::new",
-            "tauri_typegen::build::generation_cache::GenerationCache::cache_path"]
+READONLY_PREFIXES = ("load", "needs_regeneration", "new", "cache_path", "compare_with_cache", "hash_", "combine_hashes", "compute_hash")
 GEN_MODELS = "tauri_typegen::generators::base::BaseBindingsGenerator::generate_models"
 
 
@@ -117,10 +114,12 @@ def check(ctx):
     r1b = Rule("C17-D1-readers-never-write", "D1",
                "GenerationCache::{load, needs_regeneration, new} reach no filesystem mutator",
                "a cache check that writes the record would vouch for files that were never generated")
+    impl = "tauri_typegen::build::generation_cache::GenerationCache::"
+    READONLY = sorted(k for k in P.fns if k.startswith(impl) and "{" not in k and k[len(impl):].startswith(READONLY_PREFIXES))
+    for need in ("load", "needs_regeneration", "new"):
+        if impl + need not in P.fns:
+            r1b.bad(V(r1b.id, "<anchor>", "missing:" + need, "anchor function not found: GenerationCache::" + need))
     for fid in READONLY:
-        if fid not in P.fns:
-            r1b.bad(V(r1b.id, "<anchor>", "missing:" + fid, "anchor function not found: " + fid))
-            continue
         if fsreach(fid):
             r1b.bad(V(r1b.id, fid, "reaches-fs-mutator", "%s can reach a filesystem mutation" % fid, P.fns[fid].file, P.fns[fid].line))
         else:
@@ -201,27 +200,41 @@ def check(ctx):
               "a record computed from other values than the ones generated from vouches for files it does not describe")
     for s in save_sites:
         f = s.fn
-        news = [c for c in f.calls if is_call_to(c, CACHE_NEW)]
+        news = [c for c in f.calls if is_cache_new(c)]
         gens = [c for c in f.calls if c.path == GEN_MODELS]
         if not news or not gens:
             r3.bad(V(r3.id, f.id, "no-cache-new-or-generate", "function saves a cache but does not build it next to the generation call", s.file, s.line))
             continue
         g = gens[0]
         n = news[0]
-        # generate_models(self, commands, discovered_structs, output_path, analyzer, config)
-        pairs = [(0, 1, "commands"), (1, 2, "structs"), (2, 5, "config")]
-        for ni, gi, what in pairs:
-            a = f.describe_origin(f.origin(n.args[ni]), short=False, deep=3)
-            b = f.describe_origin(f.origin(g.args[gi]), short=False, deep=3)
+        for what in ("commands", "structs", "config"):
+            na = arg_by_type(n, ARG_TYPES[what])
+            ga = arg_by_type(g, ARG_TYPES[what])
+            if na is None or ga is None:
+                r3.bad(V(r3.id, f.id, "no-%s-argument" % what, "cannot find the %s argument of GenerationCache::new / generate_models" % what, n.file, n.line))
+                continue
+            a = f.describe_origin(f.origin(na), short=False, deep=3)
+            b = f.describe_origin(f.origin(ga), short=False, deep=3)
             if a == b and a != "?":
                 r3.ok("%s: cache.%s == generate_models.%s (%s)" % (short_path(f.id), what, what, a[:80]))
             else:
                 r3.bad(V(r3.id, f.id, "different-%s" % what,
                          "GenerationCache::new is given %s from `%s` but generate_models from `%s`" % (what, a, b), n.file, n.line))
+        ev = arg_by_type(n, ARG_TYPES["events"])
+        if ev is not None:
+            a = f.describe_origin(f.origin(ev), short=False, deep=3)
+            ga = arg_by_type(g, r"CommandAnalyzer$")
+            an = f.describe_origin(f.origin(ga), short=False, deep=3) if ga is not None else "?"
+            if "get_discovered_events" in a and an != "?" and an.replace("deref", "").strip("().") in a.replace("deref", ""):
+                r3.ok("%s: cache.events == events of the analyzer handed to generate_models" % short_path(f.id))
+            elif "get_discovered_events" in a:
+                r3.ok("%s: cache.events = analyzer.get_discovered_events()" % short_path(f.id))
+            else:
+                r3.bad(V(r3.id, f.id, "different-events", "GenerationCache::new is given events from `%s`, not from the analyzer used for generation" % a, n.file, n.line))
         # the saved record is the one just built
         o = f.origin(s.args[0])
         txt = f.describe_origin(o, short=False, deep=3)
-        if "GenerationCache::new" in txt:
+        if "GenerationCache::new" in txt:  # new / new_with_events
             r3.ok("%s: saved record originates from GenerationCache::new" % short_path(f.id))
         else:
             r3.bad(V(r3.id, f.id, "saved-record-origin", "saved record does not originate from GenerationCache::new in this function: %s" % txt, s.file, s.line))
